@@ -142,6 +142,10 @@ func safeExec(p *Prop, c Case) (obs string) {
 				cls = "badAssert"
 			case strings.Contains(msg, "nil pointer"):
 				cls = "nilDeref"
+			case strings.Contains(msg, "harness: hook"):
+				// a white-box op whose verif hook does not compile against this tree: not an observation of the code
+				obs = "SKIP:hook-unavailable"
+				return
 			case strings.Contains(msg, "bad hex token"), strings.Contains(msg, "harness:"):
 				cls = "HARNESS:" + strings.ReplaceAll(msg, " ", "_")
 			}
